@@ -4,7 +4,8 @@
     [tk_step true max s t] for every thread [t], i.e. under EVERY schedule, for ANY number of
     threads and ANY queues.  Tie to the code: real OS threads through the cfg(callbag_verif)
     hooks under the token-passing scheduler, compared event by event with this model. *)
-From CB Require Import Threads ThreadSpec ThreadsFine ThreadsTakeMerge Inv_threads_take Inv_threads_takemerge.
+From CB Require Import Threads ThreadSpec ThreadsFine ThreadsTakeMerge Inv_threads_take Inv_threads_takemerge
+  Inv_threads_take_fine.
 
 Theorem C19_safe max qs s :
   tk_reach max qs s ->
@@ -86,3 +87,30 @@ Theorem C19_takemerge_unfixed_refuted :
   /\ In TvSinkTermTwice (takemerge_check 1 (rev (xms_tr s))).
 Proof. exact takemerge_unfixed_refuted. Qed.
 Print Assumptions C19_takemerge_unfixed_refuted.
+
+(** ** take at the granularity of every shared-state access: the delivery that reaches max claims the end
+    ([end.swap(true)]) and reads the talkback cell before it stops the upstream and completes the sink; in
+    between [end] is set and nothing has been sent yet ([tkf_step], ThreadsFine.v: what the driver runs for a
+    take script with free=1) *)
+
+Theorem C19_fine_safe max qs s :
+  tkf_reach max qs s ->
+  count is_begin_data (tks_tr s) <= max /\ count is_up_term (tks_tr s) <= 1
+  /\ count is_begin_term (tks_tr s) <= 1.
+Proof. exact (@take_fine_safe max qs s). Qed.
+Print Assumptions C19_fine_safe.
+
+Theorem C19_fine_complete max qs s :
+  1 <= max -> tkf_reach max qs s -> (forall t, tk_finished s t = true) ->
+  max <= count is_begin_data (tks_tr s) ->
+  count is_up_term (tks_tr s) = 1 /\ count is_begin_term (tks_tr s) = 1.
+Proof. exact (@take_fine_complete max qs s). Qed.
+Print Assumptions C19_fine_complete.
+
+Theorem C19_fine_driver_run max qs n sch fuel :
+  1 <= max -> (forall t, n <= t -> qs t = []) ->
+  let s := run_full (tkf_step max) tk_finished n sch fuel (tk_init qs) in
+  first_unfinished tk_finished n s = None ->
+  take_check max (rev (tks_tr s)) = [].
+Proof. exact (@take_fine_driver_run max qs n sch fuel). Qed.
+Print Assumptions C19_fine_driver_run.
